@@ -16,7 +16,7 @@ RULE = ("G-sim traces with 0/1/2/3/5 profiler steps, gaps of 0/1/7 between steps
         "steps and >= 1 event dropped by trimming and >= 1 device activity kept. Distinct = hash of files + configuration.")
 ASSUMPTIONS = ["well-formed regime (hv/wf.py); steps do not overlap; all ranks carry the same step set",
                "cuda_sync rows on stream -1 are not judged for their iteration number (the statement leaves their side open)"]
-PLAN = {"quick": {"shards": 16, "cases": 480, "timeout": 600}, "thorough": {"shards": 16, "cases": 10000, "timeout": 3000}}
+PLAN = {"quick": {"shards": 16, "cases": 960, "timeout": 600}, "thorough": {"shards": 16, "cases": 10000, "timeout": 3000}}
 FLOORS = {"quick": {"distinct_nontrivial": 100, "rows_judged": 20000, "trimmed_loads": 200, "inc_last_loads": 150, "events_dropped": 2000,
                     "starts_at_step_boundary": 100, "add_iteration.post": 400},
           "thorough": {"distinct_nontrivial": 2000, "rows_judged": 400000, "trimmed_loads": 4000, "inc_last_loads": 3000,
@@ -48,6 +48,11 @@ def gen_case(rnd, tier: str, i: Any) -> Dict[str, Any]:
         gen_sim.drop_events(rnd, tr, p_launch=rnd.choice([0, 0, 0.15]), p_kernel=rnd.choice([0, 0, 0.15]))
         files[f"rank{r}.json"] = tr
     return {"files": files, "cfg": {"inc_last": rnd.random() < 0.45, "mp": rnd.random() < 0.3}}
+
+
+def fixed_cases(tier: str):
+    from hv import samples
+    return [dict(c, cfg={"inc_last": m, "mp": False}) for c in samples.sample_cases(tier) for m in (False, True)]
 
 
 def run_case(case: Dict[str, Any], ctx: Any) -> core.CaseResult:
@@ -119,7 +124,9 @@ def run_case(case: Dict[str, Any], ctx: Any) -> core.CaseResult:
             res.counters["inc_last_loads"] += 1
         res.nontrivial = n_steps >= 2 and n_dropped > 0 and n_dev_kept > 0
         res.trivial_reason = "fewer than 2 steps or nothing dropped or no device activity kept"
-        res.key = core.digest([case["files"], cfg])
+        res.key = core.digest([case.get("sample") or case["files"], cfg])
+        if case.get("sample"):
+            res.counters["real_sample_traces"] += 1
         f0 = next(iter(case["files"].values()))
         res.sample = {"cfg": cfg, "ranks": len(models), "steps": [(s.name, s.ts, s.end) for s in refload.step_events(next(iter(models.values())))],
                       "events": len(f0["traceEvents"]), "dropped_by_trimming": n_dropped, "device_kept": n_dev_kept}
